@@ -120,8 +120,19 @@ def _stub_pyplot(plt):
         return f
 
     def hist(x, bins=10, density=False, **kw):
-        with np.errstate(all='ignore'):
-            n, edges = np.histogram(np.asarray(x, dtype=float), bins=bins, density=density)
+        # what Axes.hist does with one data set: the range comes from nanmin/nanmax (missing values are left out of the bins);
+        # data without any finite value make numpy raise, as they do through matplotlib
+        import warnings
+        x = np.asarray(x, dtype=float)
+        rng = None
+        with np.errstate(all='ignore'), warnings.catch_warnings():
+            warnings.simplefilter('ignore')
+            xmin, xmax = np.inf, -np.inf
+            if len(x):
+                xmin, xmax = min(xmin, np.nanmin(x)), max(xmax, np.nanmax(x))
+            if xmin <= xmax:
+                rng = (xmin, xmax)
+            n, edges = np.histogram(x, bins=bins, range=rng, density=density)
         return n, edges, None
     plt.figure = disp('figure', lambda *a, **kw: _Ax())
     plt.subplot = disp('subplot', lambda *a, **kw: _Ax())
@@ -209,7 +220,7 @@ def gen_config(cs, tier='quick', force=None):
     force = force or {}
     c = {}
     c['mode'] = force.get('mode') or ('strict' if cs.choose(4, 'mode') < 3 else 'extended')
-    c['program'] = force.get('program') or ['hip', 'hip', 'hip', 'hip', 'hipold', 'geo'][cs.choose(6, 'program')]
+    c['program'] = force.get('program') or ['hip', 'hip', 'hip', 'hip', 'hipold', 'geo', 'geo'][cs.choose(7, 'program')]
     hip = c['program'] != 'geo'
     c['base'] = cs.choose(2, 'base')
     if force.get('base') is not None:
@@ -262,7 +273,7 @@ def gen_config(cs, tier='quick', force=None):
         # (an extra input is kept only if its arguments do not depend on the base input, which this scenario replaces)
         inputs = [dict(WL.HIP_9999_INPUT)] + [i_ for i_ in inputs if i_['name'] == 'Reservoir Area' and not i_['edge']
                                                 and i_.get('hash_arg') is None][:1]
-    if c['program'] == 'geo' and not force.get('inputs') and force.get('base') is None and cs.choose(6, 'special_geo') == 5:
+    if c['program'] == 'geo' and not force.get('inputs') and force.get('base') is None and cs.choose(4, 'special_geo') == 3:
         # the report of the simulator changes its LAYOUT between the iterations of one run: a sampled input straddles the
         # point where a line of the report is left out (no pumping needed -> no 'Initial pumping power/net installed
         # power' line; conversion efficiency not positive -> no 'Heat to Power Conversion Efficiency' line), so every
@@ -279,7 +290,7 @@ def gen_config(cs, tier='quick', force=None):
     c['outputs'] = [on.pop(cs.choose(len(on), 'out')) for _ in range(nout)]
     if c['special'] == 'layout_shift':
         keep = c['outputs'][:2]
-        must = [o for o in WL.GEO_LAYOUT_OUTPUTS if o not in keep]
+        must = [o for o in WL.GEO_LAYOUT_OUTPUTS[inputs[0]['name']] if o not in keep]
         c['outputs'] = (keep + must) if cs.choose(2, 'lorder') == 0 else (must + keep)
     if c['special'] == 'exclusion_rule':
         c['outputs'] = list(WL.HIP_9999_OUTPUTS) if cs.choose(2, 'sorder') == 0 else list(reversed(WL.HIP_9999_OUTPUTS))
@@ -813,6 +824,13 @@ def analyse(rec, c, k, out_path, inp_path, payload, driver=None):
     for lineno, toks, pairs, ln in rows:
         if [p[0] for p in pairs] != in_names:
             V('C14', 'row_malformed', 'input_names', f'line {lineno}: inputs {[p[0] for p in pairs]} != {in_names}')
+            got_ = [p[0] for p in pairs]
+            if len(got_) < len(in_names) and all(n_ in in_names for n_ in got_) and len(toks) == len(c['outputs']) \
+                    and (strict or not broken) and not any(lineno == t[0] for t in torn):
+                # a complete, untorn row of a simulated iteration that records no draw for a requested input: that iteration
+                # did not draw its inputs from the requested distributions
+                V('C13', 'missing_sample', 'row_lacks_requested_input',
+                  f'line {lineno}: no sample recorded for {[n_ for n_ in in_names if n_ not in got_]} (row has {got_})')
         if len(toks) != len(c['outputs']):
             V('C14', 'row_malformed', 'column_count', f"line {lineno}: {len(toks)} output tokens for {len(c['outputs'])} OUTPUTs")
     # --- C13: row count ---------------------------------------------------------------
